@@ -17,6 +17,7 @@ import json
 from harness import core, tables_io
 from harness import coder_io as C
 from harness import coderprops as P
+from harness import msgs
 
 PROP = 'C01'
 
@@ -72,14 +73,22 @@ def run(ctx):
         cases = P.gen_values(drv, treq, cases, rng)
         enc = P.run_encode(drv, treq, cases)
         items = []
+        # whole messages assembled by the MODEL (framing model of C04 + the model encoder's data bits): the
+        # decoder is then exercised independently of what the implementation's encoder accepts or produces
+        mreqs, mcases = [], []
         for c, impl, model in enc:
-            if impl[0] != 'ok':
+            if impl[0] == 'ok':
+                items.append((c, impl[1]))
+            else:
                 ctx.count('encoder-refused')
-                continue
-            items.append((c, impl[1]))
             if 'bits' in model:
-                # the same frame with the data section written by the model encoder
-                items.append((c, C.replace_data(impl[1], model['bits'])))
+                js = C.make_message_json(c.ids, [[] for _ in range(c.n)], c.comp, edition=c.edition)
+                mreqs.append(msgs.encode_req(js, c.edition, model['bits']))
+                mcases.append(c)
+        for c, r in zip(mcases, drv.batch(mreqs)):
+            if 'hex' in r:
+                items.append((c, bytes.fromhex(r['hex'])))
+                ctx.count('model-assembled')
         for c, b, impl, model in P.run_decode(drv, treq, items):
             ctx.case({'ids': c.ids, 'n': c.n, 'compressed': c.comp, 'edition': c.edition}, nontrivial=P.nontrivial(c),
                      sample=len(ctx.samples) < 6)
